@@ -28,6 +28,7 @@ from .. import common, tlc, tlaval
 END = "$"  # spec's name of END_OF_SEQUENCE ("" in the code)
 WILD = "."
 SIG_D3 = "C18|DeviationBidirEpsilon@symbol_re.py:NFA.from_ast"
+FRESH_CAP = 8  # fresh violations recorded per (pattern spelling) before its walk stops
 
 
 # ------------------------------------------------------------------------------------ TLC runs
@@ -126,6 +127,7 @@ def _out(o):
         "devComplete": bool(o["devComplete"]),
         "devNext": sorted(o["devNext"]),
         "devVns": sorted(o["devVns"]),
+        "thVns": sorted(o["thVns"]),
     }
 
 
@@ -144,11 +146,13 @@ def join_tokens(toks, style):
     return " ".join(toks)
 
 
-def texts_of(txt):
+def texts_of(txt, only=None):
     """the concrete spellings of one enumerated pattern that are run"""
     out = []
     seen = set()
     for name, toks, style in (("min", txt["min"], "space"), ("full", txt["full"], "space"), ("min-compact", txt["min"], "compact"), ("full-lines", txt["full"], "lines")):
+        if only and name not in only:
+            continue
         t = join_tokens(toks, style)
         if t not in seen:
             seen.add(t)
@@ -217,7 +221,7 @@ def walk(text, table, alphabet, maxlen):
     from vc2_conformance.symbol_re import Matcher
 
     viol = []
-    nodes = steps = 0
+    nodes = steps = dis = 0
     try:
         m0 = Matcher(text)
     except Exception as e:  # noqa
@@ -225,6 +229,8 @@ def walk(text, table, alphabet, maxlen):
     stack = [((), m0)]
     alph = sorted(alphabet)
     while stack:
+        if sum(1 for v in viol if v[0] != SIG_D3) >= FRESH_CAP:
+            break  # this spelling already raises the alarm many times over; cases attributed to D3 never stop the walk
         w, m = stack.pop()
         exp = table[w]
         nodes += 1
@@ -236,6 +242,8 @@ def walk(text, table, alphabet, maxlen):
             offered = set(x for x in alph if x in v1 or WILD in v1)
             if c1 != exp["complete"] or offered != nxt or (END in v1) != exp["complete"]:
                 bad = True
+            elif v1 != set(exp["thVns"]):
+                dis += 1  # R1: the exact set Thompson's automaton would list is a spec extra, never an alarm
             refused = [x for x in alph if x not in nxt]
             for x in refused:
                 steps += 1
@@ -279,18 +287,19 @@ def walk(text, table, alphabet, maxlen):
             for x, mm in live:
                 if w + (x,) in table:
                     stack.append((w + (x,), mm))
-    return viol, nodes, steps, 0
+    return viol, nodes, steps, dis
 
 
 def exec_pattern(job):
     """job = (key, [(style, text)], table as list of (w, out), alphabet, maxlen)"""
     key, texts, table_items, alphabet, maxlen = job
     table = dict((tuple(w), o) for w, o in table_items)
-    res = {"violations": [], "nodes": 0, "steps": 0}
+    res = {"violations": [], "nodes": 0, "steps": 0, "dis": 0}
     for style, text in texts:
-        viol, nodes, steps, _ = walk(text, table, alphabet, maxlen)
+        viol, nodes, steps, dis = walk(text, table, alphabet, maxlen)
         res["nodes"] += nodes
         res["steps"] += steps
+        res["dis"] += dis
         for sig, what, w in viol:
             res["violations"].append((sig, what, {"text": text, "style": style, "w": list(w), "alphabet": sorted(alphabet), "expect": table[tuple(w)]}))
     return res
@@ -437,6 +446,7 @@ def run_jobs(ctx, jobs, label, stats):
     for job, r in zip(jobs, out):
         stats["nodes"] += r["nodes"]
         stats["steps"] += r["steps"]
+        stats["dis"] += r["dis"]
         stats["matchers"] += len(job[1])
         for sig, what, case in r["violations"]:
             case["part"] = label
@@ -464,7 +474,8 @@ def enum_part(ctx, stats):
             stats["states"] += len(table)
             stats["dev_differs"] += sum(1 for o in table.values() if o["devNext"] != o["next"] or o["devComplete"] != o["complete"])
             stats["nontrivial"] += sum(1 for w_ in table if len(w_) >= 2)
-            jobs.append((key, texts_of(p["txt"]), [(list(w_), o) for w_, o in sorted(table.items())], c["EnumAlphabet"], c["MaxLen"]))
+            only = None if c is ENUM_CONSTANTS["quick"] else ("min-compact", "full-lines")  # the <=3-operator box: two spellings
+            jobs.append((key, texts_of(p["txt"], only), [(list(w_), o) for w_, o in sorted(table.items())], c["EnumAlphabet"], c["MaxLen"]))
         if not jobs:
             raise RuntimeError("TLC enumerated no pattern")
         stats["patterns"] += len(jobs)
@@ -477,7 +488,7 @@ def enum_part(ctx, stats):
 def real_part(ctx, stats):
     pats = real_patterns()
     alphabet = real_alphabet()
-    maxlen = ctx.pick(4, 5)
+    maxlen = ctx.pick(3, 5)
     wd = tlc.mkscratch("c18real")
     path = os.path.join(wd, "patterns.ndjson")
     asts = {}
@@ -552,7 +563,7 @@ def selftest_binding(jobs):
 
 
 def run(ctx):
-    stats = {"patterns": 0, "states": 0, "nodes": 0, "steps": 0, "matchers": 0, "violating_cases": 0, "dev_differs": 0, "nontrivial": 0}
+    stats = {"patterns": 0, "states": 0, "nodes": 0, "steps": 0, "matchers": 0, "violating_cases": 0, "dev_differs": 0, "nontrivial": 0, "dis": 0}
     samples = enum_part(ctx, stats)
     out_of_scope = real_part(ctx, stats)
     st_jobs = stats.pop("selftest_jobs")
@@ -576,7 +587,8 @@ def run(ctx):
             "states_where_deviation_model_differs_from_design": stats["dev_differs"],
             "real_patterns": stats["real_patterns"],
             "out_of_scope": out_of_scope,
-            "spec_disagreements": 0,
+            "spec_disagreements": stats["dis"],
+            "spec_disagreements_rule": "states where valid_next_symbols() is not literally the set the Thompson automaton of the spec lists (same meaning, different members); logged only",
             "violating_cases": stats["violating_cases"],
             "binding_selftest": {"in-process mutants flagged (cases)": selftest, "trace": tstats["selftest"]},
             "trace_direction": tstats,
@@ -595,7 +607,21 @@ def replay(case):
         from . import c18_trace
 
         return c18_trace.replay(case)
+    from vc2_conformance.symbol_re import Matcher
+
     alphabet = case["alphabet"]
+    exp = case["expect"]
     obs = observe_fresh(case["text"], tuple(case["w"]), alphabet)
-    r = classify(case["expect"], obs, alphabet)
-    return {"violations": [] if r is None else [{"signature": r[0], "what": r[1]}], "observed": obs, "expected": case["expect"]}
+    r = classify(exp, obs, alphabet)
+    viol = [] if r is None else [{"signature": r[0], "what": r[1]}]
+    if r is None:
+        # the live-object part of the walk: rejected symbols must not move the matcher
+        m = Matcher(case["text"])
+        for x in case["w"]:
+            m.match_symbol(x)
+        c1, v1 = bool(m.is_complete()), _vns(m)
+        refused = [x for x in alphabet if x not in exp["next"]]
+        moved = [x for x in refused if m.match_symbol(x)]
+        if moved or bool(m.is_complete()) != c1 or _vns(m) != v1:
+            viol.append({"signature": "C18|match_symbol|rejected-symbol-moved-the-matcher", "what": "answers changed after rejected symbols %s" % refused})
+    return {"violations": viol, "observed": obs, "expected": exp}
